@@ -9,10 +9,10 @@ import lib
 from lib import zlit, vlist
 
 LEVEL = "proof"
-UNITS = ["GenRegions"]
+UNITS = ["GenRegions", "GenRegionsFill"]
 
 HEADER = ("From Coq Require Import ZArith List. Import ListNotations. Open Scope Z_scope.\n"
-          "Require Import Rig.Generated.GenRegions Rig.Model.Base Rig.Model.Regions.\n"
+          "Require Import Rig.Generated.GenRegions Rig.Generated.GenRegionsFill Rig.Model.Base Rig.Model.Regions Rig.Model.RegionsFill.\n"
           # insertion sequences are written as one hexadecimal number, 6 digits per core (x, y, p), after a
           # leading 1 (parsing a list of tens of thousands of decimal literals dominates the run otherwise)
           "Definition unpack_step (s : Z * list core) : Z * list core :=\n"
@@ -501,6 +501,84 @@ def gen_tree_rw(rng):
     return dict(mode="tree_rw", level=level, ops=out)
 
 
+def gen_ffa(rng):
+    """The entry points: 2-4 MachineController.flood_fill_aplx / load_application calls on ONE controller whose
+    _send_scp records the packets.  Cores given as sets, lists, tuples, frozensets and one-shot iterables; the same
+    set objects changed in place between two fills; load_application with scripted cores that fail to start."""
+    def small_targets():
+        t = {}
+        for _ in range(rng.choice([1, 1, 2])):
+            gen_shape(rng, t, rng.choice(["sparse", "full4", "full4", "neighbours", "corners", "straddle4"]), heavy=False)
+        chips = sorted(t)[:60]
+        if rng.random() < 0.5:
+            rng.shuffle(chips)
+        return [[x, y, sorted(t[(x, y)])] for x, y in chips]
+    calls, prev_set = [], False
+    for k in range(rng.randint(2, 4)):
+        if prev_set and rng.random() < 0.75:
+            calls.append(dict(kind=rng.choice(["fill", "fill", "load"]), form="two", apps=[],
+                              reuse=dict(edits=[], newdict=rng.random() < 0.4, n=rng.randint(1, 4)), fail=[]))
+            continue
+        kind = rng.choice(["fill", "fill", "load"])
+        napps = 1 if rng.random() < 0.7 else 2
+        kinds = ["set", "set", "set", "list", "tuple", "frozenset"] + (["iter", "gen", "filter"] if kind == "fill" else [])
+        apps = [dict(targets=small_targets(), container=rng.choice(kinds)) for _ in range(napps)]
+        calls.append(dict(kind=kind, form="two" if napps == 1 and rng.random() < 0.6 else "map", apps=apps, reuse=None, fail=[]))
+        prev_set = napps == 1 and apps[0]["container"] == "set"
+    # concrete edits and failing cores need the running state of the re-used objects
+    cur = None
+    for call in calls:
+        if call["reuse"] is not None:
+            n = call["reuse"].pop("n")
+            for _ in range(n):
+                chip = rng.choice(sorted(cur))
+                if cur[chip] and rng.random() < 0.45:
+                    p = rng.choice(sorted(cur[chip]))
+                    cur[chip].discard(p)
+                    call["reuse"]["edits"].append(["discard", chip[0], chip[1], p])
+                else:
+                    p = rng.randrange(18)
+                    cur[chip].add(p)
+                    call["reuse"]["edits"].append(["add", chip[0], chip[1], p])
+            req = [(x, y, p) for (x, y), ps in cur.items() for p in ps]
+        else:
+            cur = ({(t[0], t[1]): set(t[2]) for t in call["apps"][0]["targets"]}
+                   if len(call["apps"]) == 1 and call["apps"][0]["container"] == "set" else None)
+            req = [(t[0], t[1], p) for a in call["apps"] for t in a["targets"] for p in t[2]]
+        if call["kind"] == "load" and req and rng.random() < 0.75:
+            call["fail"] = [list(q) for q in rng.sample(sorted(set(req)), min(len(set(req)), rng.randint(1, 3)))]
+    return dict(mode="ffa", calls=calls)
+
+
+def ffa_expected(case):
+    """The flood fills a case must produce: per call a list of (targets {chip: set}, model order or None)."""
+    out, cur = [], None
+    for call in case["calls"]:
+        if call["reuse"] is not None and cur is not None:
+            for op, x, y, p in call["reuse"]["edits"]:
+                getattr(cur[(x, y)], op)(p)
+            apps = [dict(cur)]
+        else:
+            apps = [dict(((t[0], t[1]), set(t[2])) for t in a["targets"]) for a in call["apps"]]
+            cur = ({k: set(v) for k, v in apps[0].items()}
+                   if len(apps) == 1 and call["apps"][0]["container"] == "set" else None)
+            if cur is not None:
+                apps = [dict(cur)]
+        fills = [({k: set(v) for k, v in a.items()}, i) for i, a in enumerate(apps)]
+        if call["kind"] == "load":
+            failing = set(tuple(q) for q in call.get("fail", []))
+            for a in apps:
+                again = {}
+                for (x, y), ps in a.items():
+                    f = {p for p in ps if (x, y, p) in failing}
+                    if f:
+                        again[(x, y)] = f
+                if again:
+                    fills.append((again, None))
+        out.append(fills)
+    return out
+
+
 def clean(c):
     """A case as written to replays / samples: without the harness's private back references."""
     return {k: v for k, v in c.items() if not k.startswith("_")}
@@ -668,7 +746,7 @@ def run(chk, args):
         cases = [expand(f["replay"]["case"]) for f in items if "case" in f.get("replay", {})]
         cases = [c for c in cases if c.get("mode") != "compress" or isinstance(c.get("targets"), list)]
     else:
-        n = 1400 if not thorough else 8000
+        n = 1250 if not thorough else 8000
         n = int(os.environ.get("C12_CASES", n))            # (for trying the pipeline out on a loaded machine)
         cases = []
         for i in range(n):
@@ -684,6 +762,8 @@ def run(chk, args):
                 cases.append(gen_tree_rw(rng))
             elif i % 10 == 2:
                 cases.append(gen_numpy(rng))
+            elif i % 10 == 8:
+                cases.append(gen_ffa(rng))
             else:
                 cases.append(gen_case(rng, i, chk.tier))
         for dt in NARROW_DTYPES:
@@ -734,8 +814,10 @@ def run(chk, args):
     outs = outs[:len(cases)]
     # a history is judged call by call: every call on its own by the oracle, and against the stateless model
     fc, fo = [], []
+    rw_sessions = []
     for c, o in zip(cases, outs):
         if c["mode"] == "tree_rw":
+            rw_sessions.append((c, o))
             chk.count("tree objects re-read while being filled")
             adds_before, k, nadd = [], 0, 0
             if o[0] != "ok":
@@ -750,6 +832,34 @@ def run(chk, args):
                     fo.append(["ok", o[1][:len(adds_before)], o[2][k]])
                     k += 1
                     chk.count("tree reads judged")
+            continue
+        if c["mode"] == "ffa":
+            chk.count("entry-point sessions (flood_fill_aplx / load_application on one controller)")
+            if o[0] != "ok":
+                chk.fail_input("entry:" + o[0], "flood_fill_aplx session: driver returned %r" % (o[:2],), dict(case=c))
+                continue
+            for ci, (call, res, exp) in enumerate(zip(c["calls"], o[1], ffa_expected(c))):
+                chk.count("entry-point call:" + call["kind"] + ("+reused-sets" if call["reuse"] is not None else ""))
+                for a in call["apps"]:
+                    chk.count("entry-point cores as:" + a["container"])
+                if res["exc"] or len(res["fills"]) != len(exp):
+                    chk.fail_input("entry:exception" if res["exc"] else "entry:fill-count",
+                                   "call #%d (%s): %s" % (ci + 1, call["kind"], "raised %s" % res["exc"] if res["exc"] else
+                                                          "%d flood fills were sent, %d expected" % (len(res["fills"]), len(exp))),
+                                   dict(case=dict(c, calls=c["calls"][:ci + 1]), observed=res))
+                    break
+                for fi, ((tg, oi), raw) in enumerate(zip(exp, res["fills"])):
+                    bad = [a for a in raw if (a[0] >> 24) != 7]
+                    if bad:
+                        chk.fail_input("entry:command", "call #%d fill #%d: a packet between flood-fill start and end is not a "
+                                       "core select: arg1=%#x" % (ci + 1, fi + 1, bad[0][0]), dict(case=c))
+                        continue
+                    order = (res["orders"][oi] if oi is not None and oi < len(res["orders"])
+                             else [[x, y, p] for (x, y), ps in tg.items() for p in sorted(ps)])
+                    fc.append(dict(mode="compress", targets=[[x, y, sorted(ps)] for (x, y), ps in tg.items()], container="set",
+                                   order="chosen", tags=["entry-point"], valid=True, _ffa=(c, ci, fi), _raw=raw))
+                    fo.append(["ok", order, [[a[1], a[0] & 0xffffff] for a in raw]])
+                    chk.count("entry-point flood fills judged")
             continue
         if c["mode"] != "history":
             fc.append(c)
@@ -815,6 +925,13 @@ def run(chk, args):
     shrunk_keys = set()
     for c, o, why, ncores in sorted(failing, key=lambda f: f[3]):
         rep_case, rep_out, rep_why = c, o, why
+        if "_ffa" in c:
+            sess, ci, fi = c["_ffa"]
+            call = sess["calls"][ci]
+            chk.fail_input("entry-" + why[0], "MachineController.%s, call #%d on one controller, flood fill #%d: the FFCS packets "
+                           "sent: %s" % ("load_application" if call["kind"] == "load" else "flood_fill_aplx", ci + 1, fi + 1, why[1]),
+                           dict(case=dict(sess, calls=sess["calls"][:ci + 1]), requested=c["targets"], pairs_sent=o[2]))
+            continue
         if "_h" in c:
             hist, idx = c["_h"]
             hcase, hout, hwhy = shrink_history(chk, hist, idx, why[0])
@@ -882,7 +999,9 @@ def run(chk, args):
                 if not thorough and c["mode"] == "compress" and len(o[1] if o[0] == "ok" else o[2]) > 20000:
                     chk.count("model evaluation left to the thorough tier (> 20000 cores)")
                     continue
-                if c["mode"] == "compress":
+                if "_ffa" in c:
+                    exprs.append("ffcs_packets %s" % coq_cores(o[1], in_space(o[1])))
+                elif c["mode"] == "compress":
                     order = o[1] if o[0] == "ok" else o[2]
                     exprs.append("compress %s" % coq_cores(order, in_space(order)))
                 else:
@@ -895,6 +1014,14 @@ def run(chk, args):
                 c, o = cases[i], outs[i]
                 chk.traces_validated += 1
                 m = canon_model(v)
+                if "_ffa" in c:
+                    same = m[0] == "ok" and pairs(m[1]) == pairs(c["_raw"])
+                    shown = (m if m[0] != "ok" else ["ok", m[1][:8]], c["_raw"][:8])
+                    if not same and bad < 3:
+                        bad += 1
+                        chk.disagree("flood_fill_aplx: the (arg1, arg2) of the FFCS packets sent differ from the model's "
+                                     "ffcs_packets: model %r, sent %r" % shown, dict(case=c["_ffa"][0], call=c["_ffa"][1] + 1))
+                    continue
                 if c["mode"] == "compress":
                     same = (m[0] == o[0] and (m[0] != "ok" or pairs(m[1]) == pairs(o[2]))
                             and (m[0] != "fail" or m[1] == o[1]))
@@ -926,6 +1053,22 @@ def run(chk, args):
             if not bad:
                 chk.oblige("correspondence:compress/RegionCoreTree (%d cases, exact list equality incl. order, "
                            "add_core return values, error class)" % len(idx), True)
+            # one tree object: the model's session (Model/RegionsFill.v tree_session) against all reads at once
+            sess = [(c, o) for c, o in rw_sessions if o[0] == "ok"]
+            if sess:
+                sx = ["tree_session %d %s" % (3 - c["level"], vlist("OpRead" if op[0] == "read" else "OpAdd %s %s %s" % tuple(zlit(q) for q in op[1:])
+                                                                     for op in c["ops"])) for c, o in sess]
+                sv = eval_retry(chk, HEADER, sx, shard=40, timeout=1200, name="sessions")
+                okall = True
+                for (c, o), v in zip(sess, sv):
+                    chk.traces_validated += 1
+                    m = canon_model(v)
+                    if not (m[0] == "ok" and [pairs(r) for r in m[1]] == [pairs(r) for r in o[2]]):
+                        okall = False
+                        chk.disagree("tree_session: the reads of one tree object differ from the model's", dict(case=c))
+                        break
+                if okall:
+                    chk.oblige("correspondence:tree_session (%d tree objects read while filled, every read)" % len(sess), True)
             # get_region_for_chip: the generated definition against the implementation (validates the translator)
             words = [(x, y, 3 if l is None else l, w) for cc, o in zip(chip_cases, chip_outs) if o[0] == "ok"
                      for (x, y, l), w in zip(cc["chips"], o[1])]
